@@ -3,9 +3,9 @@ import re
 from sa.terms import mk, ZERO, ONE, TRUE, FALSE, show, walk, map_term, num
 from .common import engine, inventory, analysis_or_fail
 
-LEVEL = 'necessary-conditions'
+LEVEL = 'other'
 MANIFEST = {
-    'category': 'lint',
+    'category': 'other',
     'engine': 'svn',
     'technique': ('symbolic value numbering of the mutation sites of the estimated-time network: every store of a forward link '
                   'is matched with a store of the reciprocal backward link on the same index terms (and vice versa), the seeds of '
